@@ -5485,7 +5485,8 @@ let obj_ok k e d m o x =
               in
               if k.k_weak
               then (&&) (implb dying (is_dropped h))
-                     (implb (is_dropped h) ((||) dying (mem_id o d)))
+                     (implb (is_dropped h)
+                       ((||) ((||) dying (mem_id o d)) (N.eqb h.h_rc N0)))
               else (||) (negb (is_dropped h)) (negb (is_live x))))
            (eqb h.h_side (match x.o_side with
                           | Some _ -> true
@@ -5537,13 +5538,18 @@ let inv_b k e m =
   let d = m.dead in
   (&&)
     ((&&)
-      (forallb (fun pat -> let (o, x) = pat in obj_ok k e d m o x)
-        (imap (fun o x -> (o, x)) m.heap))
-      (forallb (loc_ok d m) (handle_locs m)))
+      ((&&)
+        (forallb (fun pat -> let (o, x) = pat in obj_ok k e d m o x)
+          (imap (fun o x -> (o, x)) m.heap))
+        (forallb (loc_ok d m) (handle_locs m)))
+      (forallb (fun t0 ->
+        match lookup0 list_lookup t0 m.heap with
+        | Some xt -> is_alloc xt
+        | None -> false) e))
     (forallb (fun t0 ->
       match lookup0 list_lookup t0 m.heap with
-      | Some xt -> is_alloc xt
-      | None -> false) e)
+      | Some xt -> (&&) ((&&) (is_alloc xt) (is_live xt)) (negb (mem_id t0 d))
+      | None -> false) m.pc)
 
 (** val exact_b : id0 list -> machine -> bool **)
 
